@@ -147,6 +147,37 @@ def fsSources (entries : List (σ × EntryKind × FileState)) : List (σ × File
 def fsStart (rej : List σ) (entries : List (σ × EntryKind × FileState)) : Out σ :=
   fsInit rej St.init (fsSources entries)
 
+/-! ### rule files replaced while `Start` is loading them
+
+`Start` runs on one goroutine: `sources()` lists the directory, then every listed file is opened and handed to
+`ruleSetCreatedOrUpdated` in turn; only after the last one the watch is registered and the `watchFiles` goroutine is
+started.  While the load is inside a processor call (creating the rules of a big rule set takes time) files may be
+replaced.  Nobody else handles them at that time: a file the load has opened already keeps the version that was read
+(until its next notification), a file opened later is read in its new state, a file that is not in the listing is not
+opened at all.  In particular no second `ruleSetCreatedOrUpdated` runs next to the one of the initial load. -/
+
+/-- the last state the changes `chg` (in the order they happen) leave file `n` in, if they touch it -/
+def fsLatest (chg : List (σ × FileState)) (n : σ) : Option FileState :=
+  (chg.reverse.find? fun p => p.1 = n).map (·.2)
+
+/-- what the initial load gets to read when the files `chg` are replaced while it is inside the processor call for its
+`held`-th source (counted from 0): the sources up to that one as they were, the later ones in their new state -/
+def fsReadDuring (srcs : List (σ × FileState)) (held : Nat) (chg : List (σ × FileState)) : List (σ × FileState) :=
+  srcs.take (held + 1) ++ (srcs.drop (held + 1)).map fun p => (p.1, (fsLatest chg p.1).getD p.2)
+
+/-- the source whose processor call is the first one of the initial load: the first file holding a rule set, provided
+the load gets that far (`none`: `Start` makes no call at all) -/
+def fsFirstCall : List (σ × FileState) → Nat → Option Nat
+  | [], _ => none
+  | (_, .valid _) :: _, i => some i
+  | (_, .invalid) :: _, _ => none
+  | _ :: rest, i => fsFirstCall rest (i + 1)
+
+/-- `Start` while the files `chg` are replaced during the processor call for the `held`-th source -/
+def fsStartDuring (rej : List σ) (entries : List (σ × EntryKind × FileState)) (held : Nat)
+    (chg : List (σ × FileState)) : Out σ :=
+  fsInit rej St.init (fsReadDuring (fsSources entries) held chg)
+
 /-! ## http_endpoint (`watchChanges`, `ruleSetsUpdated`) -/
 
 inductive HttpOutcome where
